@@ -84,6 +84,25 @@ def plan(tier, seed):
               crop=bool(rng.random() < 0.6),
               dtype=pick(rng, ["complex128", "complex128", "float64", "float32", "complex64"]),
               prior=int(rng.integers(0, 1 << 30)), adv=int(rng.integers(0, 1000)))
+        if i % 7 == 3:
+            # the unseeded path (seed=None): no reference mask exists, but the mask is still
+            # binary / calibrated / cropped / within tol and NumPy's global state untouched
+            P.cases[-1]["seed"] = None
+    # the kernel run as plain Python (numba's NUMBA_DISABLE_JIT=1, as under a debugger or a
+    # coverage run): its seeding and draws then act on NumPy's global generator, and only
+    # poisson's own save / restore keeps the state untouched.  Small grids (the interpreted
+    # kernel is about 1000 times slower); workers started with that switch.  (Seeded calls
+    # only: an unseeded interpreted kernel has no other source of randomness than NumPy's
+    # global generator, so that combination is outside what the statement can mean.)
+    for i in range(10 if quick else 80):
+        shape = [int(rng.integers(8, 15)), int(rng.integers(8, 15))]
+        P.add("poisson", shape=shape, accel=float(np.round(rng.uniform(1.4, 12), 2)),
+              calib=[int(pick(rng, [0, 2, 3])) for _ in range(2)],
+              tol=pick(rng, [0.2, 0.5, 0.05, 1e-4]),
+              seed=pick(rng, [0, 1, int(rng.integers(0, 1000)), int(rng.integers(0, 1000))]),
+              crop=bool(rng.random() < 0.6), dtype=pick(rng, ["complex128", "float64"]),
+              prior=int(rng.integers(0, 1 << 30)), adv=int(rng.integers(0, 1000)),
+              nojit=True, timeout=900)
     return P.cases
 
 
@@ -105,7 +124,8 @@ def run_case(case):
     shape_arg, accel_arg = (ny, nx), accel
     if variant == 1:        # lists and NumPy scalars instead of tuples and Python numbers
         shape_arg, accel_arg = [ny, nx], np.float64(accel)
-        kw.update(calib=[cy, cx], seed=np.int64(case["seed"]), tol=np.float64(tol))
+        kw.update(calib=[cy, cx], tol=np.float64(tol),
+                  seed=None if case["seed"] is None else np.int64(case["seed"]))
     elif variant == 2:
         shape_arg = np.array([ny, nx])
         kw.update(calib=np.array([cy, cx]))
@@ -114,6 +134,16 @@ def run_case(case):
     ccls = "c0" if cy == 0 and cx == 0 else "c1ax" if cy == 0 or cx == 0 else "c2"
     sig = "|".join(map(str, [aspect, acls, ccls, tol, "crop" if case["crop"] else "full",
                              dtype.name, "v%d" % (case["prior"] % 4)]))
+    sd_ = 0 if case["seed"] is None else case["seed"]       # seed of the auxiliary calls
+    if case["seed"] is None:
+        sig += "|unseeded"
+    if case.get("nojit"):
+        import os
+        from numba import config as _nbc
+        if not (os.environ.get("NUMBA_DISABLE_JIT") == "1" and _nbc.DISABLE_JIT):
+            return inconclusive("this worker does not run with NUMBA_DISABLE_JIT=1",
+                                sig="nojit-not-active")
+        sig += "|nojit"
     if case["prior"] % 5 < 2:
         # history: an earlier call in this process with the same image shape but another
         # calibration region / crop setting (nothing derived from the arguments may be
@@ -121,7 +151,7 @@ def run_case(case):
         try:
             _CALLS[0] = 0
             mr.poisson((ny, nx), 3.0, calib=((cy + 10) % 20, (cx + 6) % 20),
-                       crop_corner=not case["crop"], seed=case["seed"] + 7, tol=1.0)
+                       crop_corner=not case["crop"], seed=sd_ + 7, tol=1.0)
         except (ValueError, PoissonAbort):
             pass
         st0 = np.random.get_state()
@@ -202,8 +232,8 @@ def run_case(case):
     # an intervening call with other arguments: nothing may be remembered between calls
     try:
         _CALLS[0] = 0
-        mr.poisson((max(16, nx - 3), max(16, ny - 5)), 2.0 + (case["seed"] % 3),
-                   calib=(cx, cy), seed=case["seed"] + 1, tol=0.5)
+        mr.poisson((max(16, nx - 3), max(16, ny - 5)) if not case.get("nojit") else (nx, ny),
+                   2.0 + (sd_ % 3), calib=(cx, cy), seed=sd_ + 1, tol=0.5)
     except (ValueError, PoissonAbort):
         pass
     _CALLS[0] = 0
@@ -217,10 +247,26 @@ def run_case(case):
         # (the repeat is always made with keywords: positional and keyword calls with the same
         # values must give the same mask)
         mask2 = mr.poisson(shape_arg, accel_arg, **kw)
-    except (ValueError, PoissonAbort):
+    except (ValueError, PoissonAbort) as e2_:
+        if case["seed"] is None and isinstance(e2_, ValueError):
+            # unseeded: another random pattern may legitimately miss the tolerance
+            r = held(sig + "|second-raised", obs, checks)
+            r["tags"] = ["returned-mask"]
+            return r
         return violated(sig, "second call with equal arguments did not return a mask", wit,
                         mech="reproducibility")
     checks += 1
+    if case["seed"] is None:
+        # unseeded: no two masks need agree; the second one obeys the same static clauses
+        m2 = np.real(mask2) > 0
+        if tuple(mask2.shape) != (ny, nx) or not np.all((mask2 == 0) | (mask2 == 1)) or \
+                not abs(m2.size / max(m2.sum(), 1) - accel) < tol:
+            return violated(sig, "second unseeded mask is not a binary mask of the requested "
+                            "shape and acceleration", wit, mech="unseeded-second")
+        st2 = np.random.get_state()
+        r = held(sig, obs, checks)
+        r["tags"] = ["returned-mask"]
+        return r
     if not np.array_equal(mask, mask2):
         return violated(sig, "two calls with equal arguments and seed gave different masks "
                         "(%d differing points)" % int(np.sum(mask != mask2)), wit,
